@@ -36,6 +36,7 @@ def handle (line : String) : String :=
     | "pool" :: rest => Pool.driverLine rest obs
     | "poolmt" :: rest => Pool.mtLine rest obs
     | "conn" :: rest => Pool.connLine rest obs
+    | "cfgp" :: rest => Pool.cfgpLine rest obs
     | "srv" :: rest => Server.driverLine rest obs
     | "srvk" :: rest => Server.kernelLine rest obs
     | "tls" :: rest => Tls.driverLine rest obs
